@@ -59,6 +59,14 @@ structure LogCat (log : List (Request ν κ)) : Prop where
   tabs : ∃ L : List (TName ν), readColumn .name (logOf .metaTables log) = L.map Cell.tname ∧ L.Nodup ∧
       ∀ t, t ∈ L ↔ (t ≠ .metaTables ∧ logOf t log ≠ [])
 
+/-- `LogCat` of every prefix of the log (each prefix was the whole log once; restart replays from a prefix). -/
+def LogCatAll (log : List (Request ν κ)) : Prop := ∀ l1 l2, log = l1 ++ l2 → LogCat l1
+
+theorem LogCatAll.whole {log : List (Request ν κ)} (h : LogCatAll log) : LogCat log := h log [] (by simp)
+
+theorem LogCatAll.pre {l1 l2 : List (Request ν κ)} (h : LogCatAll (l1 ++ l2)) : LogCatAll l1 :=
+  fun a b e => h a (b ++ l2) (by rw [e]; simp)
+
 /-- The per-table clause of the invariant. -/
 structure TableOk (t : TName ν) (tm : TableMem ν κ) (cat : List PartMeta) (files : List (PartFile ν κ))
     (pre post : List (Request ν κ)) : Prop where
@@ -80,7 +88,7 @@ structure DurableAt (w : World ν κ) (pre : List (Request ν κ)) : Prop where
   tabs : ∀ t tm, w.mem.tables t = some tm →
       TableOk t tm (w.mem.cat.parts t) (w.disk.parts t) pre (w.disk.wal.map (·.req))
   absent : ∀ t, w.mem.tables t = none → t ≠ .metaTables ∧ logOf t w.log = [] ∧ w.mem.cat.parts t = [] ∧ w.disk.parts t = []
-  logcat : LogCat w.log
+  logcat : LogCatAll w.log
 
 def Durable (w : World ν κ) : Prop := ∃ pre, DurableAt w pre
 
